@@ -90,7 +90,7 @@ class ConfigDict(ComposedNode, dict):
         ComposedNode.ayns.clear(self)
         dict.clear(self)
 
-    def setdefault(self, key, value):
+    def setdefault(self, key, value=None):
         if key not in self:
             return self._set(key, value)
         return self[key]
